@@ -148,64 +148,74 @@ def asIds (items : List Item) (del : List Id) (mst : Str) : XRes → Option (Lis
   | .fieldExpr => some (allIds items del mst)
   | .fail => none
 
+/-- `seriesByINExprIterator` after the other operand was evaluated: its series pruned with the set -/
+def prunedBy (items : List Item) (k : Str) (vs : List Str) (neg : Bool) (r : XRes × Caches) : Option (XRes × Caches) :=
+  match r with
+  | (.ids l, c') =>
+    match pruneWithSet items l k vs neg with
+    | some x => some (.ids x, c')
+    | none => none
+  | _ => none
+
+/-- the prune-with-set path of an AND: `ra`, `rb` are the operands evaluated on their own -/
+def viaIn (items : List Item) (a b : XPred Re) (ra rb : XRes × Caches) : Option (XRes × Caches) :=
+  match chooseIN a b with
+  | some true =>
+    match bigIn a with
+    | some (k, vs, neg) => prunedBy items k vs neg rb
+    | none => none
+  | some false =>
+    match bigIn b with
+    | some (k, vs, neg) => prunedBy items k vs neg ra
+    | none => none
+  | none => none
+
+/-- the all-AND fast path (`seriesByAllAndExprIterator`); `none` = not applicable / `ErrAllFields` -/
+def fastPath (M : Matchers Re) (items : List Item) (del : List Id) (mst : Str) (c : Caches) (p : XPred Re) :
+    Option (XRes × Caches) :=
+  match allAndLeaves p with
+  | some (tags, _) =>
+    match tags with
+    | [] => none
+    | [t] => let (r, c') := oneFilter M items del mst c t; some (.ids r, c')
+    | _ =>
+      match fastAnd M items del mst c tags with
+      | (some r, c') => some (.ids r, c')
+      | (none, _) => none
+  | none => none
+
+def combineAnd (items : List Item) (del : List Id) (mst : Str) : XRes → XRes → XRes
+  | .fail, _ | _, .fail => .fail
+  | .fieldExpr, .ids y => .ids y
+  | .ids x, .fieldExpr => .ids x
+  | .fieldExpr, .fieldExpr => .ids (allIds items del mst)
+  | .ids x, .ids y => .ids (inter x y)
+
+def combineOr (items : List Item) (del : List Id) (mst : Str) (l r : XRes) : XRes :=
+  match asIds items del mst l, asIds items del mst r with
+  | some x, some y => .ids (union x y)
+  | _, _ => .fail
+
 def xSelExpr (M : Matchers Re) (items : List Item) (del : List Id) (mst : Str) :
     XPred Re → Caches → XRes × Caches
   | .atom a, c => xLeaf M items del mst c a
   | .paren a, c => xSelExpr M items del mst a c
   | .and a b, c =>
-    -- `seriesByINExprIterator`: the other operand through the index, then pruned with the set
-    let pruned (k : Str) (vs : List Str) (neg : Bool) (r : XRes × Caches) : Option (XRes × Caches) :=
-      match r with
-      | (.ids l, c') =>
-        match pruneWithSet items l k vs neg with
-        | some x => some (.ids x, c')
-        | none => none
-      | _ => none
-    let viaIn : Option (XRes × Caches) :=
-      match chooseIN a b with
-      | some true =>
-        match bigIn a with
-        | some (k, vs, neg) => pruned k vs neg (xSelExpr M items del mst b c)
-        | none => none
-      | some false =>
-        match bigIn b with
-        | some (k, vs, neg) => pruned k vs neg (xSelExpr M items del mst a c)
-        | none => none
-      | none => none
-    match viaIn with
+    match viaIn items a b (xSelExpr M items del mst a c) (xSelExpr M items del mst b c) with
     | some r => r
     | none =>
-      -- the all-AND fast path
-      let fast : Option (XRes × Caches) :=
-        match allAndLeaves (.and a b) with
-        | some (tags, _) =>
-          match tags with
-          | [] => none                 -- `ErrAllFields`
-          | [t] => let (r, c') := oneFilter M items del mst c t; some (.ids r, c')
-          | _ =>
-            match fastAnd M items del mst c tags with
-            | (some r, c') => some (.ids r, c')
-            | (none, _) => none        -- an error: "fall back to normal mode"
-        | none => none
-      match fast with
+      match fastPath M items del mst c (.and a b) with
       | some r => r
       | none =>
         if isAllField (.and a b) then (.fieldExpr, c) else
         let (l, c1) := xSelExpr M items del mst a c
         let (r, c2) := xSelExpr M items del mst b c1
-        match l, r with
-        | .fail, _ | _, .fail => (.fail, c2)
-        | .fieldExpr, .ids y => (.ids y, c2)
-        | .ids x, .fieldExpr => (.ids x, c2)
-        | .fieldExpr, .fieldExpr => (.ids (allIds items del mst), c2)
-        | .ids x, .ids y => (.ids (inter x y), c2)
+        (combineAnd items del mst l r, c2)
   | .or a b, c =>
     if isAllField (.or a b) then (.fieldExpr, c) else
     let (l, c1) := xSelExpr M items del mst a c
     let (r, c2) := xSelExpr M items del mst b c1
-    match asIds items del mst l, asIds items del mst r with
-    | some x, some y => (.ids (union x y), c2)
-    | _, _ => (.fail, c2)
+    (combineOr items del mst l r, c2)
 
 /-- `measurementSeriesByExprIterator`: a condition of nothing but field comparisons selects every
 series of the measurement -/
